@@ -114,9 +114,11 @@ Revive(by, u, a, pool) ==
 \* A request names a target pool (or AnyPool).  It is accepted iff the unit is
 \* migratable and the target differs from the pool it is associated with.
 \* (Requests for one unit are issued one at a time, or by the unit itself.)
+\* (a requester may find out only after logging its call that the unit has just finished: such a
+\*  late request has no effect)
 MigReq(by, u, tgt) ==
-    /\ ByOK(by) /\ st[u] \in {"created", "running", "blocked", "resumable"}
-    /\ mg' = [mg EXCEPT ![u].pend = IF mg[u].able /\ tgt # mg[u].pool THEN tgt ELSE @]
+    /\ ByOK(by) /\ st[u] \in {"created", "running", "blocked", "resumable", "done"}
+    /\ mg' = [mg EXCEPT ![u].pend = IF st[u] # "done" /\ mg[u].able /\ tgt # mg[u].pool THEN tgt ELSE @]
     /\ UNCHANGED <<st, arg, tok, cst, starts, inYield, inpool, expect, rin>>
 \* ret: 0 accepted, 1 rejected: same pool, 2 rejected: not migratable, 3 "no target stream"
 MigRet(by, u, ret) ==
